@@ -5,7 +5,7 @@ From Coq Require Import List ZArith QArith Bool Arith Lia Permutation.
 From DV Require Import Base.PyList Base.C05_Sort Base.C05_List Model.C05_Nsga2 Model.C05_Spec Model.C05_CrowdSpec
   Model.C05_Full Model.C05_GenRt Proofs.C05_GenRt Proofs.C05_Spec Proofs.C05_Nsga2 Proofs.C05_QInst Proofs.C05_Crowding
   Proofs.C05_CutFront Proofs.C05_Depth Proofs.C05_Extremes Proofs.C05_FloatOrd Proofs.C05_All Proofs.C05_Final
-  Proofs.C05_Compose Proofs.C05_FullClauses Gen.C05_gen Proofs.C05_gen_equiv.
+  Proofs.C05_Compose Proofs.C05_FullClauses Gen.C05_gen Proofs.C05_gen_equiv Proofs.C05_gen_nd_equiv.
 Import ListNotations.
 Local Open Scope nat_scope.
 
@@ -111,26 +111,48 @@ Section GenProps.
     destruct (nd_fronts_correct nd pop k OK ND) as (f & E & FC). rewrite E in PS. injection PS as <-. exact FC.
   Qed.
 
-  (* the regenerated selNSGA2 composed with C04's sorters is the end-to-end model *)
-  Lemma gen_full nd (pop : list indV) k t r t' :
-    pop_ok pop -> nd_ok nd pop ->
-    gen_selNSGA2 o (model_sorter o NdStandard) (model_sorter o NdLog) pop (Z.of_nat k) nd t = Some (r, t') ->
-    sel_nsga2_full o nd pop k = Some r.
+  Lemma model_backends_refine nd (pop : list indV) k :
+    backends_refine o (model_sorter o NdStandard) (model_sorter o NdLog) nd pop k.
+  Proof. intros fronts PS. now rewrite pick_model_sorter in PS. Qed.
+
+  (* ... and so is the regenerated sortNondominated (for 'standard'; the log-time sorter stays C04's model) *)
+  Lemma gen_backends_refine nd (pop : list indV) k :
+    backends_refine o (gen_std_sorter o) (model_sorter o NdLog) nd pop k.
   Proof.
-    intros OK ND RUN.
-    destruct (gen_relative _ _ pop k nd t r t' (proj1 OK) (model_sorters_ok nd pop k OK ND) RUN)
-      as (fronts & PS & _ & SEL & _).
-    rewrite pick_model_sorter in PS. unfold sel_nsga2_full. rewrite PS. exact SEL.
+    intros fronts PS. destruct nd; cbn [pick_sorter] in PS.
+    - apply gen_std_sorter_refines. exact PS.
+    - unfold model_sorter in PS. now rewrite Nat2Z.id in PS.
+    - discriminate PS.
   Qed.
 
-  (* ---- the clauses, end to end, for the regenerated selNSGA2 over C04's sorters ---- *)
+  Lemma refine_sorters_ok s_std s_log nd (pop : list indV) k :
+    pop_ok pop -> nd_ok nd pop -> backends_refine o s_std s_log nd pop k -> sorters_ok o s_std s_log nd pop k.
+  Proof.
+    intros OK ND REF fronts PS. apply REF in PS.
+    destruct (nd_fronts_correct nd pop k OK ND) as (f & E & FC). rewrite E in PS. injection PS as <-. exact FC.
+  Qed.
+
+  Lemma gen_sorters_ok nd (pop : list indV) k :
+    pop_ok pop -> nd_ok nd pop -> sorters_ok o (gen_std_sorter o) (model_sorter o NdLog) nd pop k.
+  Proof. intros OK ND. apply refine_sorters_ok; auto. apply gen_backends_refine. Qed.
+
+  (* ---- the clauses, end to end: the regenerated selNSGA2 over back-ends that refine C04's models ---- *)
   Section Full.
-    Variables (nd : nd_choice) (pop : list indV) (k : nat) (t : cdtab o) (r : list indV) (t' : cdtab o).
+    Variables (s_std s_log : sorter o) (nd : nd_choice) (pop : list indV) (k : nat).
+    Variables (t : cdtab o) (r : list indV) (t' : cdtab o).
     Hypothesis OK : pop_ok pop.
     Hypothesis ND : nd_ok nd pop.
-    Hypothesis RUN :
-      gen_selNSGA2 o (model_sorter o NdStandard) (model_sorter o NdLog) pop (Z.of_nat k) nd t = Some (r, t').
-    Let SEL := gen_full nd pop k t r t' OK ND RUN.
+    Hypothesis REF : backends_refine o s_std s_log nd pop k.
+    Hypothesis RUN : gen_selNSGA2 o s_std s_log pop (Z.of_nat k) nd t = Some (r, t').
+
+    (* it is the end-to-end model *)
+    Lemma gen_full : sel_nsga2_full o nd pop k = Some r.
+    Proof.
+      destruct (gen_relative _ _ pop k nd t r t' (proj1 OK) (refine_sorters_ok _ _ nd pop k OK ND REF) RUN)
+        as (fronts & PS & _ & SEL & _).
+      apply REF in PS. unfold sel_nsga2_full. rewrite PS. exact SEL.
+    Qed.
+    Let SEL := gen_full.
 
     Lemma gen_full_size : length r = Nat.min k (length pop).
     Proof. exact (full_size o nd pop k OK ND r SEL). Qed.
@@ -155,11 +177,52 @@ Section GenProps.
     Proof. exact (full_rank_ordered o nd pop k OK ND r SEL). Qed.
     Lemma gen_full_attributes : exists fronts, nd_fronts nd pop k = Some fronts /\ t' = write_fronts o t fronts.
     Proof.
-      destruct (gen_relative _ _ pop k nd t r t' (proj1 OK) (model_sorters_ok nd pop k OK ND) RUN)
+      destruct (gen_relative _ _ pop k nd t r t' (proj1 OK) (refine_sorters_ok _ _ nd pop k OK ND REF) RUN)
         as (fronts & PS & _ & _ & E).
-      rewrite pick_model_sorter in PS. eauto.
+      apply REF in PS. eauto.
+    Qed.
+    Lemma gen_full_crowding_cut :
+      forall P : D o -> Prop,
+      (forall a b, P a -> P b -> dltb o a b = true -> dltb o b a = false) ->
+      (forall a b c, P a -> P b -> P c -> dltb o b a = false -> dltb o c b = false -> dltb o c a = false) ->
+      forall fronts, nd_fronts nd pop k = Some fronts ->
+      Forall P (assign_crowding o (last fronts [])) ->
+      forall x dx y dy,
+        In x (last fronts []) -> In y (last fronts []) ->
+        t' (uid x) = Some dx -> t' (uid y) = Some dy ->
+        In (uid x) (uids r) -> ~ In (uid y) (uids r) -> dltb o dx dy = false.
+    Proof.
+      intros P A1 A2 fronts NF.
+      destruct (gen_relative _ _ pop k nd t r t' (proj1 OK) (refine_sorters_ok _ _ nd pop k OK ND REF) RUN)
+        as (f & PS & _ & _ & _).
+      pose proof (REF f PS) as NF'. rewrite NF in NF'. injection NF' as <-.
+      exact (gen_crowding_cut s_std s_log pop k nd t r t' (proj1 OK)
+               (refine_sorters_ok _ _ nd pop k OK ND REF) RUN P A1 A2 fronts PS).
     Qed.
   End Full.
+
+  (* ---- everything regenerated: selNSGA2 over the regenerated sortNondominated (nd = 'standard') ---- *)
+  Section E2E.
+    Variables (nd : nd_choice) (pop : list indV) (k : nat) (t : cdtab o) (r : list indV) (t' : cdtab o).
+    Hypothesis OK : pop_ok pop.
+    Hypothesis ND : nd_ok nd pop.
+    Hypothesis RUN : gen_selNSGA2 o (gen_std_sorter o) (model_sorter o NdLog) pop (Z.of_nat k) nd t = Some (r, t').
+    Let REF := gen_backends_refine nd pop k.
+
+    Lemma gen_e2e_is_model : sel_nsga2_full o nd pop k = Some r.
+    Proof. exact (gen_full _ _ nd pop k t r t' OK ND REF RUN). Qed.
+    Lemma gen_e2e_size : length r = Nat.min k (length pop).
+    Proof. exact (gen_full_size _ _ nd pop k t r t' OK ND REF RUN). Qed.
+    Lemma gen_e2e_refs_nodup : (forall x, In x r -> In x pop) /\ NoDup (uids r).
+    Proof. exact (gen_full_refs_nodup _ _ nd pop k t r t' OK ND REF RUN). Qed.
+    Lemma gen_e2e_front_priority :
+      forall x y, In x r -> In y pop -> ~ In (uid y) (uids r) -> depth pop x <= depth pop y.
+    Proof. exact (gen_full_front_priority _ _ nd pop k t r t' OK ND REF RUN). Qed.
+    Lemma gen_e2e_one_partial_front :
+      exists c, forall y, In y pop ->
+        (depth pop y < c -> In (uid y) (uids r)) /\ (c < depth pop y -> ~ In (uid y) (uids r)).
+    Proof. exact (gen_full_one_partial_front _ _ nd pop k t r t' OK ND REF RUN). Qed.
+  End E2E.
 
   (* ---- assignCrowdingDist: the attributes it leaves are the model's distances ---- *)
   Lemma gen_assign_written (front : list indV) t u t' :
